@@ -44,7 +44,7 @@ BREAK = [
     ("arith-after-clamp", F, "        return insure_fuzzy(result, FUZZY_MIN, FUZZY_MAX)\n\n\nclass FuzzyWeightedUnion", "        return insure_fuzzy(result, FUZZY_MIN, FUZZY_MAX) * 1.0\n\n\nclass FuzzyWeightedUnion", {"C04": "FuzzyUnion.execute::return#1"}),
     ("copy-removed-before-inplace", F, "arrays[1:], arrays[0].copy()\n        )\n\n        return insure_fuzzy(result, FUZZY_MIN, FUZZY_MAX)\n\n\nclass FuzzyAnd", "arrays[1:], arrays[0]\n        )\n\n        return insure_fuzzy(result, FUZZY_MIN, FUZZY_MAX)\n\n\nclass FuzzyAnd", {"C09": "FuzzyOr.execute::inplace"}),
     ("alias-then-inplace-CvtFromFuzzy", F, "        result = arr - x1\n        result *= y2 - y1\n        result /= x2 - x1\n        result += y1\n\n        return result", "        result = arr\n        result -= x1\n        result *= y2 - y1\n        result /= x2 - x1\n        result += y1\n\n        return result", {"C09": "CvtFromFuzzy.execute::inplace"}),
-    ("data-statistic", B, "        arr_min = arr.min()\n        arr_max = arr.max()", "        arr_min = arr.data.min()\n        arr_max = arr.max()", {"C03": "Normalize.execute::return#1"}),
+    ("data-statistic", B, "        arr_min = float(arr.min())\n        arr_max = float(arr.max())", "        arr_min = float(arr.data.min())\n        arr_max = float(arr.max())", {"C03": "Normalize.execute::return#1"}),
     ("remask-removed-NormalizeCurve", B, "        result[arr > value_pairs[-1][0]] = value_pairs[-1][1]\n        result.mask = arr.mask.copy()\n\n        return result\n\n\nclass NormalizeMeanToMid", "        result[arr > value_pairs[-1][0]] = value_pairs[-1][1]\n\n        return result\n\n\nclass NormalizeMeanToMid", {"C03": "NormalizeCurve.execute::return#1"}),
     ("numpy-copy-back", B, '        return kwargs["InFieldName"].result.copy()', '        return numpy.copy(kwargs["InFieldName"].result)', {"C03": "Copy.execute::return#1", "C02": "Copy.execute::return#1"}),
     ("first-input-dropped-from-fold", B, "        return reduce(lambda x, y: numpy.ma.minimum(x, y), arrays)", "        return reduce(lambda x, y: numpy.ma.minimum(x, y), arrays[1:])", {"C07": "Minimum.execute"}),
@@ -104,7 +104,7 @@ BENIGN = [
     ("temp-before-return-FuzzyNot", F, "        return insure_fuzzy(result, FUZZY_MIN, FUZZY_MAX)\n\n\nclass CvtFromFuzzy", "        clamped = insure_fuzzy(result, FUZZY_MIN, FUZZY_MAX)\n        return clamped\n\n\nclass CvtFromFuzzy", ["C04", "C03", "C09", "C02", "C08"]),
     ("extra-copy", B, "        return a - b", "        return (a - b).copy()", ["C02", "C03", "C05", "C07", "C09"]),
     ("fresh-inplace-is-fine", F, "        result = -arr\n", "        result = -arr\n        result *= 1.0\n", ["C09", "C04", "C03", "C08"]),
-    ("statements-reordered", B, "        start = kwargs.get(\"StartVal\", 0)\n        end = kwargs.get(\"EndVal\", 1)\n\n        arr_min", "        end = kwargs.get(\"EndVal\", 1)\n        start = kwargs.get(\"StartVal\", 0)\n\n        arr_min", ["C02", "C03", "C08", "C05"]),
+    ("statements-reordered", B, "        start = kwargs.get(\"StartVal\", 0)\n        end = kwargs.get(\"EndVal\", 1)\n\n        # As floats", "        end = kwargs.get(\"EndVal\", 1)\n        start = kwargs.get(\"StartVal\", 0)\n\n        # As floats", ["C02", "C03", "C08", "C05"]),
     ("blank-lines-shift", PRG, "class Program(object):", "\n\n\n# a comment that shifts every line\nclass Program(object):", ["C01", "C11", "C12", "C14", "C15", "C19"]),
     ("membership-equivalent-form", PRG, "                info.module == lib or info.module.startswith(lib + \".\")\n", "                (info.module + \".\").startswith(lib + \".\")\n", ["C19"]),
     ("helper-extracted-validate", MIX, "        if not arrays:\n            raise EmptyInputs(lineno)\n", "        if len(arrays) == 0:\n            raise EmptyInputs(lineno)\n", ["C05", "C07"]),
